@@ -47,6 +47,7 @@ func (m *ControlFile) Close() error {
 			}
 		}
 
+		VerifPoint("cf.remove")
 		if Exists(m.path) {
 			if err := os.Remove(m.path); err != nil {
 				return err
@@ -65,6 +66,7 @@ func (m *ControlFile) CloseWithErrors() []error {
 			}
 		}
 
+		VerifPoint("cf.remove")
 		if Exists(m.path) {
 			if err := os.Remove(m.path); err != nil {
 				errs = append(errs, err)
@@ -119,11 +121,13 @@ func tryCreateControlFile(filePath string, fileType ControlFileType) (*ControlFi
 }
 
 func TryCreateRLockFile(filePath string) (controlFile *ControlFile, err error) {
+	VerifPoint("rlock.stat")
 	if LockExists(filePath) {
 		return nil, NewLockError(fmt.Sprintf("failed to create %s file for %q", RLock, filePath))
 	}
 
 	lockFilePath := LockFilePath(filePath)
+	VerifPoint("rlock.createlock")
 	lfp, err := file.Create(lockFilePath)
 	if err != nil {
 		return nil, NewLockError(fmt.Sprintf("failed to create %s file for %q", RLock, filePath))
@@ -134,6 +138,7 @@ func TryCreateRLockFile(filePath string) (controlFile *ControlFile, err error) {
 	}()
 
 	rlockFilePath := RLockFilePath(filePath)
+	VerifPoint("rlock.create")
 	fp, e := file.Create(rlockFilePath)
 	if e != nil {
 		return nil, NewLockError(fmt.Sprintf("failed to create %s file for %q", RLock, filePath))
@@ -143,17 +148,20 @@ func TryCreateRLockFile(filePath string) (controlFile *ControlFile, err error) {
 }
 
 func TryCreateLockFile(filePath string) (*ControlFile, error) {
+	VerifPoint("lock.check")
 	if LockExists(filePath) || RLockExists(filePath) {
 		return nil, NewLockError(fmt.Sprintf("failed to create %s file for %q", Lock, filePath))
 	}
 
 	lockFilePath := LockFilePath(filePath)
+	VerifPoint("lock.create")
 	fp, err := file.Create(lockFilePath)
 	if err != nil {
 		return nil, NewLockError(fmt.Sprintf("failed to create %s file for %q", Lock, filePath))
 	}
 	lockFile := NewControlFile(lockFilePath, fp)
 
+	VerifPoint("lock.recheck")
 	if RLockExists(filePath) {
 		err := NewLockError(fmt.Sprintf("failed to create %s file for %q", Lock, filePath))
 		err = NewCompositeError(err, lockFile.Close())
@@ -165,6 +173,7 @@ func TryCreateLockFile(filePath string) (*ControlFile, error) {
 
 func TryCreateTempFile(filePath string) (*ControlFile, error) {
 	tempFilePath := TempFilePath(filePath)
+	VerifPoint("temp.create")
 	fp, err := file.Create(tempFilePath)
 	if err != nil {
 		return nil, NewLockError(fmt.Sprintf("failed to create %s file for %q", Temporary, filePath))
